@@ -476,6 +476,23 @@ def rule_W_KEY_keygen(ctx, repo):
                         ok = ok and v[1][0] == 'sub' and v[1][2] == C(0)
                     except (IndexError, TypeError):
                         ok = False
+                    if cname == 'func':
+                        # W-ARGS: what func() remembers for call() / key() / valid() are the caller's own argument objects, as passed (no copy: the decorated
+                        # function must receive the originals - identity, in-place results, uncopyable arguments)
+                        pa, pk = ('param', cnode.args.vararg.arg), ('param', cnode.args.kwarg.arg)
+                        stores = [e for e in co.st.events if e.kind == 'SETITEM' and e.depth == 0 and len(e.args) == 3 and is_const(e.args[1]) and e.args[1][1] in (0, 1)]
+                        remembered = dict((e.args[1][1], e.args[2]) for e in stores)
+                        for e in co.st.events:      # _args[:] = args, kwds
+                            if e.kind == 'SETITEM' and e.depth == 0 and len(e.args) == 3 and e.args[1][0] == 'slice' and e.args[2][0] == 'tuple' and len(e.args[2][1]) == 2:
+                                remembered = {0: e.args[2][1][0], 1: e.args[2][1][1]}
+                        aok = remembered.get(0) == pa and remembered.get(1) == pk
+                        ctx.ob('W-ARGS', 'keygen.dec.func remembers (args, kwds) themselves', aok)
+                        if not aok:
+                            ctx.fail('W-ARGS', qual, 'remembered arguments %s' % render(remembered.get(0, ('opaque', 'nothing')))[:60],
+                                     'klepto.keygen\'s func() stores %s / %s as the "last arguments": call() then hands the decorated function something else than the '
+                                     'objects the caller passed (copies lose identity and in-place effects, and an argument that cannot be copied makes a valid call fail)'
+                                     % (render(remembered.get(0, ('opaque', 'nothing')))[:60], render(remembered.get(1, ('opaque', 'nothing')))[:60]),
+                                     '%s:%d' % (m.rel, cnode.lineno), render_path(co))
                     ctx.ob('W-KEY', 'keygen.dec.%s' % cname, ok)
                     if not ok:
                         ctx.fail('W-KEY', qual, 'keygen %s key %s' % (cname, render(v)[:80]),
@@ -621,3 +638,52 @@ def rule_R_DEEP(ctx, repo):
                      'deep_round does not round the %s found in its %s recursively: floats nested at depth inside such containers keep their digits, so calls that '
                      'should share an entry get different keys' % ('values of dicts' if kind == 'dict' else 'elements of lists/tuples/sets', 'positional arguments' if loop == 'args' else 'keyword arguments'),
                      '%s:%d' % (m.rel, 1))
+
+
+MUTATORS = ('add', 'discard', 'remove', 'append', 'extend', 'insert', 'pop', 'popitem', 'clear', 'update', 'setdefault', 'appendleft', 'popleft', '__setitem__', '__delitem__')
+
+
+def rule_R_STATELESS(ctx, repo):
+    """R-PURE (a rounder is a function of its arguments and the tolerance).  The factories build one rounder per decorator; it lives as long as the decorated
+    function.  A mutable object created at factory level and changed by the rounder (a set of container ids "being rounded", a memo of results) is state
+    shared by all calls of that function: after a call that raised half-way, or simply after earlier calls, the same arguments round differently - the
+    key of a call then depends on the history of the process, and a later session computes another key for the entry it should load."""
+    m = repo.mod('rounding')
+    n = 0
+    for fname in FACTORIES:
+        fi = m.functions.get(fname)
+        if fi is None:
+            raise AnalysisError('anchor vanished: klepto/rounding.py::%s' % fname)
+        fn = fi.node
+        from .src import _own_scope_nodes
+        level = {}
+        for x in _own_scope_nodes(fn):
+            if isinstance(x, ast.Assign) and len(x.targets) == 1 and isinstance(x.targets[0], ast.Name):
+                v = x.value
+                mutable = isinstance(v, (ast.List, ast.Dict, ast.Set, ast.ListComp, ast.DictComp, ast.SetComp)) or (
+                    isinstance(v, ast.Call) and isinstance(v.func, (ast.Name, ast.Attribute)) and
+                    (v.func.id if isinstance(v.func, ast.Name) else v.func.attr) in ('set', 'list', 'dict', 'deque', 'defaultdict', 'OrderedDict', 'Counter', 'WeakSet', 'WeakValueDictionary'))
+                if mutable:
+                    level[x.targets[0].id] = x.lineno
+        n += 1
+        bad = None
+        for g in [y for y in ast.walk(fn) if isinstance(y, ast.FunctionDef) and y is not fn]:
+            local = set(a.arg for a in g.args.args + g.args.kwonlyargs) | set(t.id for t in ast.walk(g) if isinstance(t, ast.Name) and isinstance(t.ctx, ast.Store))
+            for y in ast.walk(g):
+                nm = None
+                if isinstance(y, ast.Call) and isinstance(y.func, ast.Attribute) and y.func.attr in MUTATORS and isinstance(y.func.value, ast.Name):
+                    nm = y.func.value.id
+                elif isinstance(y, ast.Subscript) and isinstance(y.ctx, (ast.Store, ast.Del)) and isinstance(y.value, ast.Name):
+                    nm = y.value.id
+                elif isinstance(y, ast.AugAssign) and isinstance(y.target, ast.Name):
+                    nm = y.target.id if y.target.id in level and y.target.id not in local - set([y.target.id]) else None
+                if nm in level and nm not in local and bad is None:
+                    bad = (g, y, nm)
+        ctx.ob('R-PURE', '%s: the rounder changes no object created at factory level' % fname, bad is None)
+        if bad is not None:
+            g, y, nm = bad
+            ctx.fail('R-PURE', '%s.%s' % (fi.qual, g.name), 'state `%s` shared between calls' % nm,
+                     '%s creates `%s` once per decorated function (line %d) and %s() changes it on every call: what a call leaves behind - in particular when rounding '
+                     'raises part-way and the clean-up is skipped - changes how later arguments are rounded, so the same call gets different keys at different times '
+                     '(and another key than the session that archived its result)' % (fname, nm, level[nm], g.name), '%s:%d' % (m.rel, y.lineno))
+    ctx.ob('R-PURE', 'rounder factories examined for state kept between calls', True, n=n)
